@@ -29,7 +29,7 @@ HASH_DIRS = [
     ('aldor/lib/aldor/src', True), ('aldor/lib/aldor/include', False),
     ('aldor/lib', False),
 ]
-HASH_EXT = {'.c', '.h', '.z', '.msg', '.sed', '.as', '.java', '.am', '.deps', '.conf',
+HASH_EXT = {'.c', '.h', '.h0', '.z', '.msg', '.sed', '.as', '.java', '.am', '.deps', '.conf',
             '.mk', '.y', '.l', '.in'}
 GENERATED = {'axl_y.c', 'comsgdb.c', 'comsgdb.h', 'zaccgram.c', 'zaccgram.h', 'zaccscan.c'}
 
@@ -66,7 +66,7 @@ def tree_hash():
                 with open(p, 'rb') as fh:
                     h.update(fh.read())
                 h.update(b'\0')
-    h.update(b'build.py v7')
+    h.update(b'build.py v8')
     return h.hexdigest()[:16]
 
 
@@ -94,7 +94,7 @@ class Build:
         self.B = B
         self.aldor = B + '/aldor'
         self.conf = SRC + '/aldor.conf'
-        self.inc = [B + '/gen', SRC]
+        self.inc = [B + '/src']
         self.foamlib = B + '/foamlib'
         self.foam = B + '/foam'
         self.aldorlib = B + '/aldorlib'
@@ -174,20 +174,33 @@ class Build:
         G = self.B + '/gen'
         os.makedirs(G, exist_ok=True)
         T = self.B + '/tools'
+        # private copy of the sources: quoted includes look in the including file's directory first, and /repo may hold
+        # stale generated headers (comsgdb.h, opsys_port.h) from its own in-tree build
+        S = self.B + '/src'
+        if os.path.isdir(S):
+            shutil.rmtree(S)
+        os.makedirs(S + '/java')
+        for sub in ('', 'java/'):
+            for f in os.listdir(SRC + '/' + sub):
+                p = SRC + '/' + sub + f
+                if os.path.isfile(p) and os.path.splitext(f)[1] in ('.c', '.h', '.h0', '.z', '.msg', '.sed', '.conf', '.in', '.typ', '.terminfo') and f not in GENERATED and f != 'opsys_port.h':
+                    shutil.copy(p, S + '/' + sub + f)
         run([T + '/zacc', '-p', '-y', 'axl_y.yt', '-c', 'axl_y.c', SRC + '/axl.z'], cwd=G, what='zacc axl.z')
         out = run(['sed', '-f', SRC + '/axl_y.sed', G + '/axl_y.c'])
-        open(G + '/axl_y.c', 'w').write(out)
+        open(S + '/axl_y.c', 'w').write(out)
         shutil.copy(SRC + '/comsgdb.msg', G + '/comsgdb.msg')
         run([T + '/msgcat', '-h', '-c', '-detab', 'comsgdb'], cwd=G, what='msgcat')
+        shutil.copy(G + '/comsgdb.c', S + '/comsgdb.c')
+        shutil.copy(G + '/comsgdb.h', S + '/comsgdb.h')
         s = open(SRC + '/opsys_port.h.in').read().replace('@SBRK_OPT@', '_DEFAULT_SOURCE')
-        open(G + '/opsys_port.h', 'w').write(s)
+        open(S + '/opsys_port.h', 'w').write(s)
 
     def cc_many(self, jobs):
         def one(j):
             src, obj, extra = j
             os.makedirs(os.path.dirname(obj), exist_ok=True)
             run(['gcc', '-O0', '-g', '-std=c99', '-w', GUARD, '-DVCSVERSION="%s"' % VCS] + extra +
-                ['-I' + self.B + '/gen', '-I' + SRC, '-c', src, '-o', obj], what='cc ' + os.path.basename(src))
+                ['-I' + self.B + '/src', '-c', src, '-o', obj], what='cc ' + os.path.basename(src))
         pmap(one, jobs)
 
     def comp_objs(self):
@@ -202,7 +215,7 @@ class Build:
         objs = []
         for s in libsrcs + mainsrcs:
             base = os.path.basename(s)
-            path = (self.B + '/gen/' + base) if base in GENERATED else (SRC + '/' + s)
+            path = self.B + '/src/' + s
             o = self.obj + '/' + s.replace('/', '_')[:-2] + '.o'
             jobs.append((path, o, []))
             objs.append(o)
@@ -229,7 +242,7 @@ class Build:
                 self.RT_C = l + ['bigint.c', 'foam_i.c']
         except OSError:
             pass
-        jobs = [(SRC + '/' + s, self.rt + '/' + s[:-2] + '.o', ['-DFOAM_RTS']) for s in self.RT_C]
+        jobs = [(self.B + '/src/' + s, self.rt + '/' + s[:-2] + '.o', ['-DFOAM_RTS']) for s in self.RT_C]
         self.cc_many(jobs)
 
     # ---- aldor libraries ---------------------------------------------------------------
